@@ -3,7 +3,6 @@ package data
 import (
 	"reflect"
 	"strconv"
-	"strings"
 	"time"
 	"unicode/utf8"
 
@@ -37,8 +36,13 @@ var verifC41Wire Node    // the object "on the wire"
 var verifC41WireSet bool // Marshal was called
 var verifC41NameHanded string
 
+// verifC41Lossy: what a string looks like after Marshal+Unmarshal. For an invalid string the exact
+// replacement does not matter here, only that the original is lost.
 func verifC41Lossy(s string) string {
-	return strings.ToValidUTF8(s, "�")
+	if utf8.ValidString(s) {
+		return s
+	}
+	return "\uFFFD"
 }
 
 func verifC41Marshal(v any) ([]byte, error) {
